@@ -71,7 +71,7 @@ type TypeSpec struct {
 
 var clauseKeywords = map[string]bool{"requires": true, "ensures": true, "modifies": true, "loop": true, "decreases": true,
 	"trusted": true, "pure": true, "may_panic": true, "inline": true, "noinline": true, "reveal": true, "field": true,
-	"secret": true, "public": true, "declassify": true, "level": true, "sink": true, "source": true, "trusted_frame": true, "atomic": true, "rely": true}
+	"secret": true, "public": true, "declassify": true, "level": true, "sink": true, "source": true, "trusted_frame": true, "trusted_ensures": true, "seq_extensionality": true, "atomic": true, "rely": true}
 
 func (p *Program) LoadContracts(files []string, model bool) error {
 	for _, f := range files {
